@@ -446,3 +446,55 @@ def absolute_paths_keep_focus(t0: str, t1: str, t2: str, t3: str, ci: int) -> bo
         if (ctx.item, ctx.axis, ctx.position, ctx.size) != before:
             return False
     return True
+
+
+# --- added after round-4 seeded changes: module-level select / iter_select forward the same arguments; let bindings do not outlive the let ---
+
+import elementpath as _EP  # noqa: E402
+TZS = ('+05:00', '-03:30', 'Z', '+14:00')
+T3.update(parse_all({
+    'let_bang': '((let $x := $a return $b) ! $x, $x)', 'let_array': '[let $x := $a return $x, $x]?*', 'let_map': 'map{"p": (let $x := $a return $x), "q": $x}?q',
+    'let_path': '(let $x := $a return .) ! ($x + $b)', 'let_then': '(let $x := $a return $x)', 'after_let': '$x',
+}))
+
+
+@ob(budget=150, bound='timezone from a table of 4 (index chosen by the solver), variable value unbounded: elementpath.select() and list(elementpath.iter_select()) '
+                      'with the same root, variables, item and timezone arguments return the same items (implicit-timezone(), variables)',
+    funcs=['elementpath/xpath_selectors.py:select', 'elementpath/xpath_selectors.py:iter_select'])
+def module_select_equals_iter_select(ti: int, a: int) -> bool:
+    """
+    pre: 0 <= ti <= 3
+    post: _
+    """
+    tz = TZS[[k for k in range(4) if k == ti][0]]
+    r = ET.Element('r')
+    ET.SubElement(r, 'b')
+    out = []
+    for expr in ('string(implicit-timezone())', '($a + 1, count(//b), string(implicit-timezone()))', 'b'):
+        kw = dict(parser=P31.__class__, variables={'a': a}, timezone=tz)
+        s1 = _EP.select(r, expr, **kw)
+        s1 = s1 if isinstance(s1, list) else [s1]        # select() returns a single atomic result as a bare value (documented)
+        s2 = list(_EP.iter_select(r, expr, **kw))
+        if [getattr(x, 'tag', x) for x in s1] != [getattr(x, 'tag', x) for x in s2]:
+            return False
+        out.append(s1)
+    want = {'+05:00': 'PT5H', '-03:30': '-PT3H30M', 'Z': 'PT0S', '+14:00': 'PT14H'}[tz]
+    return out[0] == [want] and out[1] == [a + 1, 1, want]
+
+
+@ob(budget=150, bound='all integer values: a let expression used as the left operand of !, as a member of an array or map constructor, or evaluated '
+                      'on a context that is used again: its binding is not visible afterwards and the caller\'s $x is unchanged',
+    funcs=['elementpath/xpath30/_xpath30_operators.py:select__let_expression', 'elementpath/xpath_context.py:XPathContext.__copy__'])
+def let_binding_does_not_outlive_the_let(a: int, b: int, x: int) -> bool:
+    """
+    post: _
+    """
+    v = {'a': a, 'b': b, 'x': x}
+    for key, want in (('let_bang', [x, x]), ('let_array', [a, x]), ('let_map', [x]), ('let_path', [x + b])):
+        r, ok = _run(T3[key], v)
+        if r != want or not ok:
+            return False
+    ctx = XPathContext(item=1, variables=dict(v))
+    if L(T3['let_then'].evaluate(ctx)) != [a] or L(T3['after_let'].evaluate(ctx)) != [x] or ctx.variables != v:
+        return False
+    return True
